@@ -187,6 +187,49 @@ def _first_evaluated(expr, name):
     return state['found'] and not state['impure']
 
 
+def _first_evaluated_seq(expr, names):
+    """are the (single) loads of `names` in `expr` evaluated in that order, before anything that could have a side effect?"""
+    state = {'idx': 0, 'impure': False}
+    n = len(names)
+
+    def ev(e):
+        if state['idx'] >= n or state['impure']:
+            return
+        if isinstance(e, ast.Name):
+            if isinstance(e.ctx, ast.Load) and e.id in names:
+                if e.id == names[state['idx']]:
+                    state['idx'] += 1
+                else:
+                    state['impure'] = True
+            return
+        if isinstance(e, ast.Constant):
+            return
+        if isinstance(e, ast.Attribute):
+            ev(e.value)
+            return
+        if isinstance(e, ast.Call):
+            ev(e.func)
+            for a in e.args:
+                ev(a.value if isinstance(a, ast.Starred) else a)
+            for k in e.keywords:
+                ev(k.value)
+            if state['idx'] < n:
+                state['impure'] = True
+            return
+        if isinstance(e, (ast.BoolOp, ast.IfExp, ast.Lambda, ast.ListComp, ast.SetComp, ast.DictComp, ast.GeneratorExp, ast.NamedExpr,
+                          ast.Await, ast.Yield, ast.YieldFrom)):
+            if any(isinstance(x, ast.Name) and x.id in names[state['idx']:] for x in ast.walk(e)):
+                state['impure'] = True
+            elif any(isinstance(x, ast.Call) for x in ast.walk(e)):
+                state['impure'] = True
+            return
+        for c in ast.iter_child_nodes(e):
+            if isinstance(c, ast.expr):
+                ev(c)
+    ev(expr)
+    return state['idx'] == n and not state['impure']
+
+
 def _replace_name(stmt, name, value):
     for parent in ast.walk(stmt):
         for fld, val in ast.iter_fields(parent):
